@@ -98,6 +98,8 @@ def builtin(it, name):
             return x.abs_int()
         if isinstance(x, str):
             return int(x, *a)
+        if x is None or x is NAN or (isinstance(x, float) and x != x):
+            raise Raised("ValueError", "cannot convert float NaN to integer")          # int(nan) raises (a missing value standing for NaN)
         if num(x):
             return int(x)
         if isinstance(x, Opaque):
